@@ -120,6 +120,30 @@ pub open spec fn block_post(pre: Compiler, post: Compiler, stmts: Seq<Stmt>, ok:
     &&& (ok ==> is_prefix(pre.instructions@, post.instructions@) && gen_inv(post) && post.instructions@.len() > pre.instructions@.len())
 }
 
+/// what compile_block_value does (verified on its real body in unit c02_blocks): the block, then the peephole that
+/// turns it into a VALUE - an empty block is its one Null; otherwise the trailing Pop of the last (expression)
+/// statement is dropped, or, when the block does not end in one, a Null is appended. Nothing emitted before is
+/// touched; the block's statements are logged as by compile_block_statement; scopes are back.
+pub open spec fn block_value_post(pre: Compiler, post: Compiler, stmts: Seq<Stmt>) -> bool {
+    let k = pre.log@.len() as int;
+    let m = stmts.len() as int;
+    &&& gen_post(pre, post, false)
+    &&& sym_depth(post.symbols) == sym_depth(pre.symbols) && sym_contexts(post.symbols) == sym_contexts(pre.symbols) && sym_outer(post.symbols) == sym_outer(pre.symbols)
+    &&& (m == 0 ==> post.instructions@ == pre.instructions@.push(opcode_byte(OpCode::Null)) && post.log@ == pre.log@ && post.last_instruction == Some(OpCode::Null))
+    &&& (m > 0 ==> {
+            &&& post.log@.len() == k + m
+            &&& (forall|i: int| 0 <= i < k ==> #[trigger] post.log@[i] == pre.log@[i])
+            &&& (forall|j: int| 0 <= j < m ==> #[trigger] post.log@[k + j].what == LogWhat::S(stmts[j])
+                    && post.log@[k + j].depth == sym_depth(pre.symbols) + 1 && post.log@[k + j].contexts == sym_contexts(pre.symbols))
+            &&& post.log@[k].start == pre.instructions@.len()
+            &&& (forall|j: int| 0 <= j < m - 1 ==> #[trigger] post.log@[k + j].end == post.log@[k + j + 1].start)
+            &&& pre.instructions@.len() < post.log@[k + m - 1].end
+            // the value peephole: one byte (the trailing Pop) less than the block's code, or one Null more
+            &&& ((post.instructions@.len() == post.log@[k + m - 1].end - 1 && post.last_instruction is None)
+                 || (post.instructions@.len() == post.log@[k + m - 1].end + 1 && post.instructions@.last() == opcode_byte(OpCode::Null) && post.last_instruction == Some(OpCode::Null)))
+        })
+}
+
 pub open spec fn le16(v: int) -> Seq<u8> { seq![(v % 256) as u8, (v / 256) as u8] }
 /// frame condition of the emit helpers: only the code buffer (and last_instruction for emit_opcode) changes
 pub open spec fn same_but_code(a: Compiler, b: Compiler) -> bool {
@@ -207,6 +231,7 @@ impl Compiler {
             sym_wf(final(self).symbols),   // also when the generator fails: compile_ast resets the table afterwards
     { unimplemented!() }
 //@ASSUMES unit=c02_blocks.rs fn=compile_block_statement full=1
+//@ASSUMES unit=c02_blocks.rs fn=compile_block_value full=1
 }
 
 impl Object {
